@@ -11,13 +11,16 @@ pub struct ExIoError(std::io::Error);
 pub trait ExRead {
     type ExternalTraitSpecificationFor: std::io::Read;
     spec fn delivered(&self) -> Seq<u8>;
+    /// the reader has signalled end of stream (a read into a non-empty buffer returned Ok(0))
+    spec fn ended(&self) -> bool;
     fn read(&mut self, buf: &mut [u8]) -> (r: std::io::Result<usize>)
         ensures
             final(buf)@.len() == old(buf)@.len(),
             old(self).delivered().is_prefix_of(final(self).delivered()),
             match r {
-                Ok(n) => n <= old(buf)@.len() && final(self).delivered() == old(self).delivered() + final(buf)@.take(n as int),
-                Err(e) => final(self).delivered() == old(self).delivered(),
+                Ok(n) => n <= old(buf)@.len() && final(self).delivered() == old(self).delivered() + final(buf)@.take(n as int)
+                    && final(self).ended() == (old(self).ended() || (n == 0 && old(buf)@.len() > 0)),
+                Err(e) => final(self).delivered() == old(self).delivered() && final(self).ended() == old(self).ended(),
             };
 }
 
